@@ -22,6 +22,10 @@ theorem leafBefore_layout (k : LeafKind) (t : Text) {bf : List Trivia} (h : bf.a
 
 theorem fmtP_nil (i : Nat) : fmtP [] i = [] := rfl
 
+def Expr.notAsrt : Expr → Bool
+  | .asrt .. => false
+  | _ => true
+
 /-- leading layout-only trivia are rendered in front of the expression -/
 theorem rebuildAP_setBefore {e : Expr} (he : e.before = []) {bf : List Trivia} (h : bf.all Trivia.isLayout = true)
     (na : Bool) (i : Nat) (inl : Bool) :
@@ -57,6 +61,17 @@ theorem rebuildAP_setBefore {e : Expr} (he : e.before = []) {bf : List Trivia} (
   | app n x g fa b a =>
     simp only [Expr.before] at he; subst he
     simp [Expr.setBefore, Expr.rebuildAP, addTriviaP, fmtP_nil]
+  | wth e bd c g s b a =>
+    simp only [Expr.before] at he; subst he
+    simp [Expr.setBefore, Expr.rebuildAP, addTriviaP, fmtP_nil]
+  | asrt c bd x y b a =>
+    simp only [Expr.before] at he; subst he
+    have hsp : ∀ (bf' a' : List Trivia) (core : List FP), addTriviaP bf' a' core i inl = fmtP bf' i ++ addTriviaP [] a' core i inl := by
+      intro bf' a' core; simp [addTriviaP, fmtP_nil]
+    simp only [Expr.setBefore, Expr.rebuildAP]
+    rw [hsp bf]
+    simp only [concat_append, List.append_assoc]
+    rw [endsWithNL_append_of_ne_nil _ _ (by simp [addTriviaP, fmtP_nil, concat_append, kwAssert])]
 
 theorem rebuildA_setBefore {e : Expr} (he : e.before = []) {bf : List Trivia} (h : bf.all Trivia.isLayout = true)
     (na : Bool) (i : Nat) (inl : Bool) :
@@ -70,7 +85,7 @@ theorem bindingTailP_emptyLine (i : Nat) : bindingTailP [.emptyLine] i = [.ws ['
   simp [bindingTailP, trailP_emptyLine]
 
 /-- a trailing blank-line marker on an expression without trailing trivia: a blank line after it -/
-theorem rebuildAP_addAfter_emptyLine {e : Expr} (he : e.effAfter false = []) (i : Nat) (inl : Bool) :
+theorem rebuildAP_addAfter_emptyLine {e : Expr} (he : e.effAfter false = []) (hna : e.notAsrt = true) (i : Nat) (inl : Bool) :
     (e.addAfter [.emptyLine]).rebuildAP false i inl = e.rebuildAP false i inl ++ [.ws ['\n'], .ws ['\n']] := by
   cases e with
   | leaf k t b a =>
@@ -109,8 +124,33 @@ theorem rebuildAP_addAfter_emptyLine {e : Expr} (he : e.effAfter false = []) (i 
   | app n x g fa b a =>
     simp only [Expr.effAfter, Bool.false_eq_true, if_false] at he; subst he
     simp [Expr.addAfter, Expr.setAfter, Expr.after, Expr.rebuildAP, addTriviaP, trailP_emptyLine, trailP_nil]
+  | wth e bd c g s b a =>
+    simp only [Expr.effAfter, Bool.false_eq_true, if_false] at he; subst he
+    simp [Expr.addAfter, Expr.setAfter, Expr.after, Expr.rebuildAP, addTriviaP, trailP_emptyLine, trailP_nil]
+  | asrt c bd x y b a => cases hna
 
 def spacesIf (inl : Bool) (i : Nat) : Text := if inl then [] else spaces i
+
+theorem notAsrt_setBefore (e : Expr) (b : List Trivia) : (e.setBefore b).notAsrt = e.notAsrt := by cases e <;> rfl
+
+theorem cf_parse_notAsrt {c : Cst} {e : Expr} (hcf : c.cf = true) (hp : c.parse = .ok e) : e.notAsrt = true := by
+  cases c with
+  | leaf k t =>
+    simp only [Cst.parse] at hp
+    obtain ⟨k', t', rfl⟩ := leafFromCst_shape hp; rfl
+  | list its cg =>
+    simp only [Cst.parse] at hp
+    split at hp
+    · cases hp
+    · injection hp with hp; subst hp; rfl
+  | set r rg its cg =>
+    simp only [Cst.parse] at hp
+    split at hp
+    · cases hp
+    · injection hp with hp; subst hp; rfl
+  | paren its cg => obtain ⟨v, lg, tg, lb, tb, rfl⟩ := paren_parse_shape hp; rfl
+  | app f cs g a => obtain ⟨n, x, g', fa, rfl⟩ := app_parse_shape hp; rfl
+  | kw w c1 g1 h c2 g2 c3 g3 b => simp [Cst.cf] at hcf
 
 theorem addAfter_nil (e : Expr) : e.addAfter [] = e := by
   cases e <;> simp [Expr.addAfter, Expr.setAfter, Expr.after]
@@ -221,12 +261,12 @@ theorem join_sp_eq : ∀ (es : List Expr) (j : Nat), es ≠ [] →
     rw [← ih]; simp
 
 theorem rendML_modifyLast : ∀ (items : List Expr) (j : Nat), items ≠ [] →
-    (∀ e ∈ items, e.effAfter false = []) →
+    (∀ e ∈ items, e.effAfter false = [] ∧ e.notAsrt = true) →
     rendML (modifyLast (fun e => e.addAfter [.emptyLine]) items) j = rendML items j ++ ['\n', '\n']
   | [], _, h, _ => absurd rfl h
   | [e], j, _, ha => by
     simp only [modifyLast, rendML_single]
-    rw [← concat_rebuildAP, rebuildAP_addAfter_emptyLine (ha e (by simp)), concat_append, concat_rebuildAP]
+    rw [← concat_rebuildAP, rebuildAP_addAfter_emptyLine (ha e (by simp)).1 (ha e (by simp)).2, concat_append, concat_rebuildAP]
     simp
   | e :: e' :: r, j, _, ha => by
     have ih := rendML_modifyLast (e' :: r) j (by simp) (fun x hx => ha x (List.mem_cons_of_mem _ hx))
@@ -268,6 +308,10 @@ theorem flatten_solid : ∀ (c : Cst), c.wf = true → solidT c.flatten
     simp only [Cst.wf, Bool.and_eq_true] at h
     simp only [Cst.flatten]
     exact solidT_append_left' _ (flatten_solid a h.2)
+  | .kw w c1 g1 hd c2 g2 c3 g3 b, h => by
+    simp only [Cst.wf, Bool.and_eq_true] at h
+    simp only [Cst.flatten]
+    exact solidT_append_left' _ (flatten_solid b h.2)
 
 /-- leaf texts and the normalised containers are non-empty and do not end in a line break -/
 theorem norm_flatten_solid : ∀ (c : Cst) (i : Nat), c.wf = true → solidT (c.norm i).flatten
@@ -297,6 +341,7 @@ theorem norm_flatten_solid : ∀ (c : Cst) (i : Nat), c.wf = true → solidT (c.
     simp only [Cst.wf, Bool.and_eq_true] at h
     simp only [Cst.norm, Cst.flatten]
     exact solidT_append_left' _ (norm_flatten_solid a _ h.2)
+  | .kw w c1 g1 hd c2 g2 c3 g3 b, i, h => by simp only [Cst.norm]; exact flatten_solid _ h
 
 /-- what the tree normaliser writes between `=` and the value, and the value -/
 def valueNorm (g2 : Text) (v : Cst) (j : Nat) : Text :=
@@ -329,13 +374,13 @@ theorem binding_text {n g2 : Text} {v : Cst} {ve b : Expr} {bf : List Trivia} (h
     (hv : ∀ na i inl, ve.rebuildA na i inl = spacesIf inl i ++ (v.norm i).flatten)
     (hbf : bf.all Trivia.isLayout = true) (j : Nat) (inl : Bool) :
     b.rebuildA false j inl = formatTrivia bf j ++ spacesIf inl j ++ n ++ [' ', '='] ++ valueNorm g2 v j ++ [';'] ∧
-    b.effAfter false = [] := by
+    (b.effAfter false = [] ∧ b.notAsrt = true) := by
   have hsplit := (nameOk_spec hn).1
   unfold bindingFromCst at hb
   simp only [hsplit, gcTrivia, flattenGC, List.flatMap_nil, List.nil_append, hvb, List.append_nil, addAfter_nil] at hb
   injection hb with hb; subst hb
   have hbv := appendGap_layout g2
-  refine ⟨?_, by simp [Expr.effAfter, hva]⟩
+  refine ⟨?_, by simp [Expr.effAfter, hva], rfl⟩
   simp only [Expr.rebuildA, before_setBefore, after_setBefore, hva, List.nil_append, bindOnNewline_layout,
     bindValIndent_layout, Bool.false_eq_true, if_false, bindingTail, applyTrailingTrivia]
   by_cases hnl : containsNL g2 = true
@@ -419,7 +464,7 @@ theorem normML_solid : (its : Items) → ∀ (m : Mode) (cg : Text) (j : Nat), i
         exact solidT_append_left _ ih
 
 
-def AllAfterNil (items : List Expr) : Prop := ∀ e ∈ items, e.effAfter false = []
+def AllAfterNil (items : List Expr) : Prop := ∀ e ∈ items, e.effAfter false = [] ∧ e.notAsrt = true
 
 /-- loop state on comment-free items -/
 def InvS (st : SeqSt) (its : Items) : Prop :=
@@ -824,7 +869,8 @@ theorem items_rt : (its : Items) → ∀ (m : Mode) (cg : Text) (st st' : SeqSt)
     have hnew : InvS { items := st.items ++ [e.setBefore (pushGap st g)], before := [], prev := .item } rest :=
       ⟨allAfterNil_append h.1 (fun x hx => by
         simp only [List.mem_singleton] at hx; subst hx
-        rw [effAfter_setBefore]; exact effAfter_of_parsed henb hea), Or.inr ⟨rfl, rfl⟩⟩
+        rw [effAfter_setBefore, notAsrt_setBefore]
+        exact ⟨effAfter_of_parsed henb hea, cf_parse_notAsrt hcf.1 hpe⟩), Or.inr ⟨rfl, rfl⟩⟩
     cases m with
     | file => rcases hm with h | h <;> cases h
     | paren => rcases hm with h | h <;> cases h
